@@ -18,7 +18,9 @@ EXTENDS Integers, Sequences, FiniteSets, TLC
 CONSTANTS NI, NO, NB,   \* inputs, outputs, batches per input
           PO,           \* order-preserving mode
           MEM,          \* memory budget in batches (0 = everything spills)
-          ERRS, DROPS   \* an input may fail / outputs may be dropped early
+          ERRS, DROPS,  \* an input may fail / outputs may be dropped early
+          FANOUT_BREAKS \* FALSE = the code; TRUE = a defective error fan-out that stops at the first output whose
+                        \* receiver is gone (the outputs "after" it in the map order never get the error)
 
 Inputs == 1..NI
 Outputs == 1..NO
@@ -80,11 +82,16 @@ Finish(i) ==
   /\ chan' = [q \in Queues |-> IF q \in {Q(i, o) : o \in Outputs} /\ ~Gone(q[2]) THEN Append(chan[q], Item("done", NoRow)) ELSE chan[q]]
   /\ UNCHANGED <<ipos, pend, routed, spill, rem, reserved, ost, out>>
 
-\* the input stream failed: the error is sent to every output
+\* the input stream failed: wait_for_task sends the error to EVERY output whose receiver still exists
+\* (a failed send to a dropped output must not stop the fan-out)
 Fail(i) ==
   /\ ERRS /\ ist[i] = "run" /\ pend[i][2] = 0 /\ \A j \in Inputs : ist[j] # "err"
   /\ ist' = [ist EXCEPT ![i] = "err"]
-  /\ chan' = [q \in Queues |-> IF q \in {Q(i, o) : o \in Outputs} /\ ~Gone(q[2]) THEN Append(chan[q], Item("err", NoRow)) ELSE chan[q]]
+  /\ \E S \in SUBSET {o \in Outputs : ~Gone(o)} :
+       \* the outputs reached by the fan-out: all live ones; with the defect, any prefix of the map order
+       \* that ends at a gone output, i.e. any subset of the live ones as soon as some output is gone
+       /\ (S = {o \in Outputs : ~Gone(o)}) \/ (FANOUT_BREAKS /\ \E o \in Outputs : Gone(o))
+       /\ chan' = [q \in Queues |-> IF q \in {Q(i, o) : o \in S} THEN Append(chan[q], Item("err", NoRow)) ELSE chan[q]]
   /\ UNCHANGED <<ipos, pend, routed, spill, rem, reserved, ost, out>>
 
 MemIn(q) == Cardinality({k \in 1..Len(chan[q]) : chan[q][k].t = "mem"})
@@ -118,6 +125,15 @@ Recv(o, q) ==
             /\ Release(o, "err") /\ UNCHANGED <<rem, out>>
   /\ UNCHANGED <<ipos, ist, pend, routed>>
 
+\* every sender handle of the queue is gone (its input tasks have ended or failed) and nothing is queued:
+\* recv() returns None - "channel closed" - and the stream ends *cleanly*
+InputsOf(q) == IF PO THEN {q[1]} ELSE Inputs
+Closed(q) == chan[q] = <<>> /\ \A i \in InputsOf(q) : ist[i] # "run"
+RecvClosed(o) ==
+  /\ ost[o] = "live" /\ \A q \in QsOf(o) : Closed(q)
+  /\ ost' = [ost EXCEPT ![o] = "eos"]
+  /\ UNCHANGED <<ipos, ist, pend, routed, chan, spill, rem, reserved, out>>
+
 \* the consumer drops the output stream early (LIMIT)
 Drop(o) ==
   /\ DROPS /\ ost[o] = "live"
@@ -129,11 +145,11 @@ Done == (\A i \in Inputs : ist[i] # "run") /\ (\A o \in Outputs : ost[o] # "live
 
 Next ==
   \/ \E i \in Inputs : Pull(i) \/ Send(i) \/ Finish(i) \/ Fail(i)
-  \/ \E o \in Outputs : Drop(o) \/ \E q \in QsOf(o) : Recv(o, q)
+  \/ \E o \in Outputs : Drop(o) \/ RecvClosed(o) \/ \E q \in QsOf(o) : Recv(o, q)
   \/ (Done /\ UNCHANGED vars)
 
 Fair == /\ \A i \in Inputs : WF_vars(Pull(i)) /\ WF_vars(Send(i)) /\ WF_vars(Finish(i))
-        /\ \A o \in Outputs : \A q \in Queues : WF_vars(Recv(o, q))
+        /\ \A o \in Outputs : WF_vars(RecvClosed(o)) /\ \A q \in Queues : WF_vars(Recv(o, q))
 Spec == Init /\ [][Next]_vars /\ Fair
 
 (* ------------------------------ properties (C10) ------------------------------ *)
@@ -148,6 +164,10 @@ NoDuplicate == /\ \A o \in Outputs : \A j, k \in 1..Len(out[o]) : out[o][j] = ou
 EosComplete == \A o \in Outputs : ost[o] = "eos" =>
                  /\ \A i \in Inputs : ist[i] = "done"
                  /\ \A r \in RowIds : (routed[r] = o) => r \in SeqSet(out[o])
+\* an input failure reaches every output that is still being read: such an output never ends cleanly, it
+\* ends with the error (EosComplete forbids the clean end; this says the error does arrive)
+ErrorSurfaces == (\E i \in Inputs : ist[i] = "err") ~> (\A o \in Outputs : ost[o] \in {"err", "dropped"})
+NoCleanEndAfterFailure == \A o \in Outputs : (ost[o] = "eos") => \A i \in Inputs : ist[i] # "err"
 \* order-preserving mode: rows of one input reach an output in input order, across the memory/spill boundary
 FifoPO == PO => \A o \in Outputs : \A j, k \in 1..Len(out[o]) :
                   (j < k /\ out[o][j][1] = out[o][k][1]) => out[o][j][2] < out[o][k][2]
